@@ -68,7 +68,11 @@ def check_docs(ctx, xmls, max_sub):
                 ctx.notes.append("generator: parser refused a document: %r" % (e,))
                 continue
             nodes = pp.tag_nodes(doc)
-            picks = [0] + sorted(ctx.rng.sample(range(1, len(nodes)), min(max_sub, len(nodes) - 1)))
+            if kind == "deep":
+                # root and sub-trees started at every depth of the chain (every other one when there are many)
+                picks = list(range(0, len(nodes), 1 if len(nodes) <= 10 else 2))
+            else:
+                picks = [0] + sorted(ctx.rng.sample(range(1, len(nodes)), min(max_sub, len(nodes) - 1)))
             for idx in picks:
                 t = extract(nodes[idx])
                 if not pp.in_domain(t):
@@ -163,6 +167,10 @@ def gen_cases(ctx, n_data, n_mixed):
         xmls.append(("data", xml))
     for _ in range(n_mixed):
         xmls.append(("mixed", to_xml(pp.gen_mixed_tree(ctx.rng, 3))))
+    # deep chains: nodes 9-13 levels below the root, serialized from the root and from sub-trees at every depth
+    for d in ([9, 12] if ctx.tier == "quick" else [8, 9, 10, 11, 12, 13]):
+        xmls.append(("deep", to_xml(pp.gen_deep_chain(ctx.rng, d))))
+    xmls.append(("deep", to_xml(pp.gen_deep_chain(ctx.rng, 10, data_style=False))))
     return xmls
 
 
@@ -188,7 +196,7 @@ def run(ctx, args):
     xmls = [("fixed", x) for x in FIXED] + gen_cases(ctx, 150 if quick else 1400, 50 if quick else 400)
     check_docs(ctx, xmls, max_sub=3 if quick else 5)
     return ctx.finish(
-        rule="documents: fixed small cases + random conventionally laid out (data-style) documents of depth <= 3 with "
+        rule="documents: fixed small cases + chains of 9-13 nested elements (root and sub-trees at every depth) + random conventionally laid out (data-style) documents of depth <= 3 with "
              "elements, comments, PIs, 0-3 attributes, xml:space directives, optional prologue/epilogue, + random "
              "mixed-content documents; parsed with reduce_whitespace; serialized from the root, from sampled sub-trees "
              "and as a document with indentation in {'', ' ', '  ', '\\t', ' \\t'} x align_attributes in {F, T}, width 0 (quick tier: 4 of the 10 option sets per tree, drawn at random). "
